@@ -117,12 +117,12 @@ def run_scenario(shape, edits, vals, expect_exception=None):
     return info, problems
 
 
-def scenario_space(tier, seed, kinds=None, funcs=(False, True), cfis=("none",), anns=("none",), patches=None, doubles=True, data_follows=(False,), multi=True, callee2=(False,), bare=(False,)):
+def scenario_space(tier, seed, kinds=None, funcs=(False, True), cfis=("none",), anns=("none",), patches=None, doubles=True, data_follows=(False,), multi=True, callee2=(False,), bare=(False,), gaps=(False,)):
     kinds = kinds or list(scen.KINDS)
-    patches = patches or ["plain", "jmpL2", "ret", "callg", "jcc", "lab", "lab0", "jmplab", "samehead", "samehead2"]
+    patches = patches or ["plain", "jmpL2", "ret", "callg", "jcc", "lab", "lab0", "jmplab", "samehead", "samehead2", "selfloop"]
     rnd = random.Random(seed)
-    for kind, fn, cfi, ann, df, c2, br1 in itertools.product(kinds, funcs, cfis, anns, data_follows, callee2, bare):
-        shape = scen.Shape(kind, fn, cfi, ann, df, c2, br1)
+    for kind, fn, cfi, ann, df, c2, br1, gp in itertools.product(kinds, funcs, cfis, anns, data_follows, callee2, bare, gaps):
+        shape = scen.Shape(kind, fn, cfi, ann, df, c2, br1, gp)
         singles = scen.single_edits(kind, patches)
         for e in singles:
             yield shape, [e]
@@ -145,6 +145,12 @@ def scenario_space(tier, seed, kinds=None, funcs=(False, True), cfis=("none",), 
                 for combo in itertools.combinations((0, 1, 2), r):
                     for ops in itertools.product(("del", "delproxy"), repeat=r):
                         yield shape, [(op, 0, sizes[t], None, t) for op, t in zip(ops, combo)]
+            # single insertions at the boundaries of the OTHER blocks (start of b2, end and start of b0) with the patches of this space
+            for pn in patches:
+                if pn in ("cfi", "plain", "selfloop", "lab0"):
+                    yield shape, [("ins", 0, 0, pn, 2)]
+                    yield shape, [("ins", sizes[0], 0, pn, 0)]
+                    yield shape, [("ins", 0, 0, pn, 0)]
             for pn in ("plain", "callg", "ret"):
                 for first in (("ins", sizes[1], 0, "plain", 1), ("del", 0, 1, None, 1), ("ins", 0, 0, "callg", 0)):
                     yield shape, [first, ("ins", 1, 0, pn, 2)]
